@@ -148,6 +148,8 @@ class Req:
         self.outstanding = 0     # historical dispatches handed out and not yet answered
         self.known = None        # height at which the notifier itself learnt the details (tip /
                                  # accepted rescan answer); later rescan answers are outdated
+        self.disp_start = 1      # first height of the historical dispatch handed out when the
+                                 # current incarnation of the request was created
         self.tracked = False     # ... and that height is indexed (within the reorg safety limit
                                  # when learnt): the request is dropped at known + limit
         self.clients = {}        # cid -> dict(n=…, status=None|(h,x), live=True)
@@ -166,9 +168,11 @@ def predicate(case, stats=None, inherit=None, out=None):
     for the request (valid client hints, truthful rescan answers, reorgs within the
     safety limit); 'reorg' is unconditional.
 
-    A rescan answer is judged against the dispatched height range it answers (op[4] = first
-    height): "not found" for a tx confirmed BELOW that range is truthful -- the range came from
-    the notifier's own persisted hint, so the missed notification is reported, not excused.
+    A rescan answer is judged against the height range the notifier dispatched when the current
+    incarnation of the request was created: "not found" for a tx confirmed BELOW that range is
+    truthful -- the range came from the notifier's own persisted hint, so the missed
+    notification is reported, not excused (op[4], the range the harness had in mind, is
+    informational: an answer to an older dispatch is judged the same way).
     Answers arriving after the notifier learnt the details itself (found at tip / an accepted
     earlier answer) are outdated and may say anything: they must be ignored.
 
@@ -231,26 +235,32 @@ def predicate(case, stats=None, inherit=None, out=None):
             p = pos_tx(op[1])
             if p and op[4] > p[0] and not restart:
                 taint(r, "client hint above confirmation height")
+            if not r.exists:
+                r.disp_start = 1
             r.exists = True
             r.clients[op[2]] = {"n": op[3], "status": None, "live": True}
             owner[op[2]] = ("c", op[1])
             if isinstance(ret, list):
                 r.outstanding += 1
+                r.disp_start = ret[0]
         elif kind == "sreg" and okret:
             r = spend[op[1]]
             p = pos_spend(op[1])
             if p and op[3] > p[0] and not restart:
                 taint(r, "client hint above spend height")
+            if not r.exists:
+                r.disp_start = 1
             r.exists = True
             r.clients[op[2]] = {"status": None, "live": True}
             owner[op[2]] = ("s", op[1])
             if isinstance(ret, list):
                 r.outstanding += 1
+                r.disp_start = ret[0]
         elif kind == "upd" and ret == "ok":
             r = conf[op[1]]
             a = op[2]
             p = pos_tx(op[1])
-            st = op[4] if len(op) > 4 else 1
+            st = r.disp_start     # answers to an older dispatch are judged like any other
             if r.known is not None:
                 if stats is not None:
                     stats["outdated_rescan_answers"] = stats.get("outdated_rescan_answers", 0) + 1
@@ -272,7 +282,7 @@ def predicate(case, stats=None, inherit=None, out=None):
             r = spend[op[1]]
             a = op[2]
             p = pos_spend(op[1])
-            st = op[4] if len(op) > 4 else 1
+            st = r.disp_start     # answers to an older dispatch are judged like any other
             if r.known is not None:
                 if stats is not None:
                     stats["outdated_rescan_answers"] = stats.get("outdated_rescan_answers", 0) + 1
